@@ -1,14 +1,14 @@
 SPECIFICATION Spec
 CONSTANTS
   NNames = 3
-  Kinds = {"num", "obj"}
+  Kinds = {"num", "obj", "struct", "ptr"}
   MaxLvl = 2
   MaxVer = 2
   NVals = 3
   NV = 3
   FirstEdits = 0
   MaxEdits = 1
-  Opts = {"dict", "py"}
+  Opts = {"dict", "cinit", "off", "force", "py"}
   Mode = "hist"
   CksMode = "names"
   Dump = TRUE
